@@ -12,7 +12,8 @@ package hub
 // Representation invariant of the hub registries
 //@ macro HUBINV(h) := (h.remoteServices != nil && h.connections != nil && h.connectionAttemptCounter != nil && h.connectionAttemptRunning != nil && h.localService != nil && h.hubReader != nil && h.mdns != nil
 //@+   && (forall k: string :: k in h.remoteServices ==> h.remoteServices[k] != nil && h.remoteServices[k].ski == k && norm(k) == k && h.remoteServices[k].connectionStateDetail != nil)
-//@+   && (forall k: string :: k in h.connections ==> h.connections[k] != nil && h.connections[k].$ski == k))
+//@+   && (forall k: string :: k in h.connections ==> h.connections[k] != nil && h.connections[k].$ski == k)
+//@+   && (forall k: string :: k in h.connectionAttemptCounter ==> 0 <= h.connectionAttemptCounter[k] && h.connectionAttemptCounter[k] < len(connectionInitiationDelayTimeRanges)))
 //@ objinv (h *Hub) H1-registries: @HUBINV(h)
 
 // ---- leaf accessors (lock; read or write one registry; unlock): inlined ----
@@ -24,6 +25,7 @@ package hub
 //@ func (h *Hub).setConnectionAttemptRunning(ski, active) inline
 //@ func (h *Hub).isConnectionAttemptRunning(ski) inline
 //@ func (h *Hub).checkHasStarted() inline
+//@ func (h *Hub).checkIsShutdown() inline
 
 //@ func (h *Hub).numberPairedServices()
 //@   requires @HUBINV(h)
@@ -168,7 +170,9 @@ package hub
 // ---- the dialling side ----
 //@ macro GATE(s) := (s.trusted || s.connectionStateDetail.state == api.ConnectionStateQueued)
 //@ macro REGISTERED(h, s) := (s != nil && s.ski in h.remoteServices && h.remoteServices[s.ski] == s)
-//@ macro SAME(s) := (s.trusted == old(s.trusted) && s.connectionStateDetail == old(s.connectionStateDetail) && s.connectionStateDetail.state == old(s.connectionStateDetail.state))
+//@ macro SAME(s) := (s.trusted == old(s.trusted) && s.connectionStateDetail == old(s.connectionStateDetail) && s.connectionStateDetail.state == old(s.connectionStateDetail.state) && h.isShutdown == old(h.isShutdown))
+// C10-D5: the shutdown flag is only ever set, and only by Shutdown
+//@ writers [C10] Hub.isShutdown in (*hub.Hub).Shutdown
 //@ func (h *Hub).keepThisConnection(conn, incomingRequest, remoteService) [C11]
 //@   requires @HUBINV(h) && remoteService != nil
 //@   ensures [C11] F3-first: !(remoteService.ski in old(h.connections)) ==> result
@@ -183,7 +187,9 @@ package hub
 //@   requires inv: @HUBINV(h)
 //@   requires reg: @REGISTERED(h, remoteService)
 //@   requires [C10] D1-gate: @GATE(remoteService)
+//@   requires [C10] D5-running: !h.isShutdown
 //@   atcall Dial [C10] D1-dial: @GATE(remoteService)
+//@   atcall Dial [C10] D5-dial: !h.isShutdown
 //@   atcall NewConnectionHandler [C02] O1-ski: $4 == remoteService.ski && $4 == cast(cast($1, ws.WebsocketConnection).conn.$under, tls.Conn).$peerSkiHex && cast(cast($1, ws.WebsocketConnection).conn.$under, tls.Conn).$peerSkiLen == 20
 //@   atcall NewConnectionHandler [C02] O2-role: $2 == ship.ShipRoleClient
 //@   atcall NewConnectionHandler [C09] O3-shipid: $5 == remoteService.shipID && $3 == h.localService.shipID
@@ -196,8 +202,44 @@ package hub
 //@   ensures !result ==> @HUBINV(h)
 //@   modifies *
 //@ loop (h *Hub).initateConnection #0
-//@   invariant @HUBINV(h) && @REGISTERED(h, remoteService) && @GATE(remoteService) && entry != nil
+//@   invariant @HUBINV(h) && @REGISTERED(h, remoteService) && @GATE(remoteService) && entry != nil && !h.isShutdown
 
 //@ func (h *Hub).prepareConnectionInitation(ski, counter, entry) [C10,C08]
 //@   requires @HUBINV(h) && entry != nil
 //@   modifies *
+
+//@ func (h *Hub).Shutdown() entry [C10,C11,C08]
+//@   ensures [C10] D5-flag: h.isShutdown
+//@   modifies *
+//@ loop (h *Hub).Shutdown #0
+//@   invariant h.connections != nil && (forall k: string :: k in h.connections ==> h.connections[k] != nil) && (forall i: int :: 0 <= i && i < len(connections) ==> connections[i] != nil)
+//@ loop (h *Hub).Shutdown #1
+//@   invariant forall i: int :: 0 <= i && i < len(connections) ==> connections[i] != nil
+//@ func (h *Hub).coordinateConnectionInitations(ski, entry) [C10,C08]
+//@   requires @HUBINV(h) && entry != nil
+//@   ensures @HUBINV(h)
+//@   modifies h.connectionAttemptRunning[ski], h.connectionAttemptCounter[ski], h.remoteServices[norm(ski)]
+//@ closure (h *Hub).coordinateConnectionInitations$1
+//@   requires @HUBINV(h) && entry != nil
+// the delay table has entries and every range is non-empty: established by the package initialiser (verified),
+// never written afterwards (writers check), assumed in every other function of the package
+//@ macro RANGES() := connectionInitiationDelayTimeRanges
+//@ globalinv [C08] G1-ranges: len(@RANGES()) >= 1 && (forall i: int :: 0 <= i && i < len(@RANGES()) ==> @RANGES()[i].min >= 0 && @RANGES()[i].min < @RANGES()[i].max && @RANGES()[i].max <= 1000000)
+//@ func init() [C08]
+//@   modifies *
+//@ func (h *Hub).increaseConnectionAttemptCounter(ski) [C08]
+//@   requires @HUBINV(h)
+//@   ensures @HUBINV(h)
+//@   ensures 0 <= result && result < len(@RANGES()) && ski in h.connectionAttemptCounter && h.connectionAttemptCounter[ski] == result
+//@   modifies h.connectionAttemptCounter[ski]
+//@ func (h *Hub).getConnectionInitiationDelayTime(ski) [C08]
+//@   requires @HUBINV(h)
+//@   ensures @HUBINV(h)
+//@   modifies h.connectionAttemptCounter[ski]
+//@ func (h *Hub).ReportMdnsEntries(entries, newEntries) entry [C10,C08,C17]
+//@   requires forall k: string :: k in entries ==> entries[k] != nil
+//@   modifies *
+//@ loop (h *Hub).ReportMdnsEntries #0
+//@   invariant @HUBINV(h) && (forall k: string :: k in entries ==> entries[k] != nil)
+//@ loop (h *Hub).ReportMdnsEntries #1
+//@   invariant @HUBINV(h) && (forall k: string :: k in entries ==> entries[k] != nil)
